@@ -166,6 +166,8 @@ pub fn nested_position_programs() -> Vec<String> {
         "(function<T>(a: T): T return a end)(1)",
         "(if false then 1 elseif x then nil else 2)",
         "(if t.z then 1 elseif x then false else 3)",
+        "({E1()} and nil)",
+        "({E1()} and 1)",
         "(function() local v = 1 v += 1 return v end)()",
         "(function() for i = 1, 2 do if i == 1 then continue end return i end end)()",
         "(function() const c = 5 return c end)()",
